@@ -243,6 +243,12 @@ impl Sim {
             Act::Hook { from, amount, msg, mint, hold } => {
                 let pre_cfg = self.w.config();
                 let out = self.w.hook_deliver(from, &staked_denom(), *amount, msg.clone(), *mint);
+                if out.ok && *mint > 0 && matches!(msg, ExecuteMsg::ReceiveUnstakedTokens { .. }) {
+                    // the operator returned tokens the staker did not hold (it topped the delivery up from
+                    // outside, e.g. because stakes were still in flight): the "honest operator, exact
+                    // backing" identity of C01 no longer applies from here on
+                    self.g.honest = false;
+                }
                 if out.ok {
                     let hook = crate::bech::hook_sender(SIM_CHANNEL, from, PROTO_PREFIX);
                     self.after_exec(&hook, msg, &[(staked_denom(), *amount)], &out, &pre_state, &pre_cfg, None);
